@@ -232,36 +232,39 @@ theorem enumerators_nodup_of_accepts (d : Def) (g : Gen) (hgen : generate d = so
   exact (namesDistinct_iff d g hgen).mp hacc.2
 
 theorem gatherDefault_mem (inh : Option (List Char)) (attrs : List Attr) (t : List Char)
-    (h : gatherDefault inh attrs = some t) : inh = some t ∨ ∃ a ∈ attrs, a.text = t := by
+    (h : gatherDefault inh attrs = some t) :
+    inh = some t ∨ ∃ a ∈ attrs, a.isCpp = true ∧ a.text = t := by
   unfold gatherDefault at h
   induction attrs generalizing inh with
   | nil => exact Or.inl h
   | cons a as ih =>
     simp only [List.foldl_cons] at h
-    rcases ih _ h with h1 | ⟨b, hb, hbt⟩
-    · by_cases hd : a.isDefault = true
+    rcases ih _ h with h1 | ⟨b, hb, hbc, hbt⟩
+    · by_cases hd : (a.isDefault && a.isCpp) = true
       · simp only [hd, if_true, Option.some.injEq] at h1
-        exact Or.inr ⟨a, List.mem_cons_self .., h1⟩
+        simp only [Bool.and_eq_true] at hd
+        exact Or.inr ⟨a, List.mem_cons_self .., hd.2, h1⟩
       · simp only [hd] at h1
-        exact Or.inl h1
-    · exact Or.inr ⟨b, List.mem_cons_of_mem _ hb, hbt⟩
+        exact Or.inl (by simpa using h1)
+    · exact Or.inr ⟨b, List.mem_cons_of_mem _ hb, hbc, hbt⟩
 
 theorem defaultsOf_mem (levels : List (List Attr)) (t : List Char)
-    (h : defaultsOf levels = some t) : ∃ a ∈ levels.flatten, a.text = t := by
+    (h : defaultsOf levels = some t) : ∃ a ∈ levels.flatten, a.isCpp = true ∧ a.text = t := by
   unfold defaultsOf at h
   have key : ∀ (inh : Option (List Char)) (ls : List (List Attr)),
-      ls.foldl gatherDefault inh = some t → inh = some t ∨ ∃ a ∈ ls.flatten, a.text = t := by
+      ls.foldl gatherDefault inh = some t →
+        inh = some t ∨ ∃ a ∈ ls.flatten, a.isCpp = true ∧ a.text = t := by
     intro inh ls
     induction ls generalizing inh with
     | nil => intro h; exact Or.inl h
     | cons l ls ih =>
       intro h
       simp only [List.foldl_cons] at h
-      rcases ih _ h with h1 | ⟨a, ha, hat⟩
-      · rcases gatherDefault_mem inh l t h1 with h2 | ⟨a, ha, hat⟩
+      rcases ih _ h with h1 | ⟨a, ha, hac, hat⟩
+      · rcases gatherDefault_mem inh l t h1 with h2 | ⟨a, ha, hac, hat⟩
         · exact Or.inl h2
-        · exact Or.inr ⟨a, by simp [ha], hat⟩
-      · exact Or.inr ⟨a, by simp only [List.flatten_cons, List.mem_append]; exact Or.inr ha, hat⟩
+        · exact Or.inr ⟨a, by simp [ha], hac, hat⟩
+      · exact Or.inr ⟨a, by simp only [List.flatten_cons, List.mem_append]; exact Or.inr ha, hac, hat⟩
   rcases key none levels h with h1 | h1
   · cases h1
   · exact h1
@@ -277,12 +280,19 @@ theorem effective_verified (d : Def) (hver : d.attrsVerified = true) (v : Value)
     · cases ht
     · rename_i t' hd
       cases ht
-      obtain ⟨a, ha, hat⟩ := defaultsOf_mem _ _ hd
-      rw [← hat]; exact hver a (Or.inl ha)
+      obtain ⟨a, ha, hac, hat⟩ := defaultsOf_mem _ _ hd
+      rw [← hat]
+      have := hver a (Or.inl ha)
+      simpa [hac] using this
   · rename_i a hf
     cases ht
-    have : a ∈ v.attrs.filter (fun a => !a.isDefault) := by rw [hf]; exact List.mem_cons_self ..
-    exact hver a (Or.inr ⟨v, hv, (List.mem_filter.mp this).1⟩)
+    have : a ∈ v.attrs.filter (fun a => !a.isDefault && a.isCpp) := by
+      rw [hf]; exact List.mem_cons_self ..
+    have hm := List.mem_filter.mp this
+    have hac : a.isCpp = true := by
+      have := hm.2; simp only [Bool.and_eq_true] at this; exact this.2
+    have := hver a (Or.inr ⟨v, hv, hm.1⟩)
+    simpa [hac] using this
   · cases ht
 
 end Emboss.Enum
